@@ -3,8 +3,11 @@
 // Contracts for package lisp (mal.go), read by /verif's VC generator (govc). Comment-only.
 package lisp
 
+// (A-STEPPER: the callback answers with a command and leaves forms, scopes and every other
+// interpreter state alone)
 //@ field lisp.Stepper(ast, ns) (cmd)
 //@   panics never
+//@   assigns nothing
 //@   ensures 0 <= cmd && cmd <= 3
 
 // outing1 (debugger bookkeeping) is assigned only by EVAL under Stepper != nil and by do under
